@@ -10,6 +10,8 @@
      * ChildStdin :: write                 = one sequential Write op = one write(2)
        that may be partial;
      * dropping ChildStdin                 = close of the write end;
+     * Child::wait(self) / wait_with_output(self) consume the Child; a ChildStdin
+       still inside it is closed first (nobody else could close it any more);
      * Child::wait(self)                   = linux.rs: with a pidfd, PollOnce
        (readable) on the pidfd and then child.wait(); otherwise unix.rs:
        child.wait() (a blocking waitpid) on the blocking pool.
@@ -185,6 +187,7 @@ Fixpoint erun (sch : list estep) (e : echo) : echo :=
   end.
 
 Definition is_eread (s : estep) : bool := match s with ERead _ => true | _ => false end.
+Definition is_closein (s : estep) : bool := match s with ECloseIn => true | _ => false end.
 
 (* ====================================================================== *)
 (* (b) waiting for the child: the state machine of linux.rs / unix.rs      *)
